@@ -52,17 +52,16 @@ func decodeLEB128(in uint) (out uint) {
 // If the end of the buffer is reached and all MSB are set
 // an error is returned.
 func ReadLeb128(in []byte) (uint, uint, error) {
-	var encodedLength uint
+	var value uint
 
 	for i := range in {
-		encodedLength |= uint(in[i])
+		// Seven bits per byte, least significant group first. This reads back every
+		// value WriteToLeb128 writes; bits beyond the width of uint are dropped.
+		value |= (uint(in[i]) & sevenLsbBitmask) << (7 * uint(i)) // nolint: gosec // G115
 
 		if in[i]&byte(msbBitmask) == 0 {
-			return decodeLEB128(encodedLength), uint(i + 1), nil // nolint: gosec // G115
+			return value, uint(i + 1), nil // nolint: gosec // G115
 		}
-
-		// Make more room for next read
-		encodedLength <<= 8
 	}
 
 	return 0, 0, ErrFailedToReadLEB128
